@@ -764,7 +764,11 @@ func (x *Exec) applyContract(fr *frame, st *State, site ssa.Instruction, con *Fn
 	for _, cl := range con.Ensures {
 		t, err := post.EvalBool(cl.E)
 		if err != nil {
-			x.stale(fr, cl, err)
+			// clauses over the callee's own locals (checked when the callee is verified)
+			// say nothing to callers
+			if !strings.Contains(err.Error(), "unresolved name") && !strings.Contains(err.Error(), "function context") {
+				x.stale(fr, cl, err)
+			}
 			continue
 		}
 		c.AddFact(st.pc, t, "ensures of "+shortKey(key))
